@@ -3,7 +3,7 @@
    when the model's [rule_blocks] says so, for ALL thresholds, sums and batch counts; without one
    it passes. *)
 From Coq Require Import ZArith Bool Lia Floats.
-From SG Require Import Base.Prelude Base.GoInt Base.GoFloat Model.Flow.
+From SG Require Import Base.Prelude Base.GoInt Base.GoFloat Model.LeapArray Model.StatNode Model.Flow.
 From Gen Require Import Leaf_gen.
 #[local] Open Scope Z_scope.
 
@@ -18,3 +18,74 @@ Lemma flow_reject_DoCheck_no_stat thr sum b : flow_reject_DoCheck b sum true thr
 Proof. reflexivity. Qed.
 
 Print Assumptions flow_reject_DoCheck_ok.
+
+(* ---- Round 3: the loops that walk the controllers in force, ONE iteration each ----
+   flow_Slot_Check_step        flow.Slot.Check: what the slot does with one controller's result
+   flow_standalone_own_step    StandaloneStatSlot.OnEntryPassed, loop over the controllers of the request's resource
+   flow_standalone_ref_step    ... its second loop, over refStatTcMap[res]
+   flow_refStat_member_step    rebuildRefStatTcMap (inner loop): which controllers are indexed under their
+                               referenced resource (action 2 = indexed)
+   Model/Flow.v: [flow_check] (first exhausted rule blocks) and [feed_ctrl] / [feed_alone] (an independent
+   window is fed by the passed requests of the rule's target resource). *)
+Definition acted {R C} (g : leaf_flow R C * list leaf_act) : bool := match snd g with [] => false | _ => true end.
+
+(* one step of flow_check on controller x *)
+Definition flow_check_step (w : world) (x : ctrl) (t b : Z) : option obs :=
+  match ctrl_sum w x t with
+  | Some s => if rule_blocks (r_thr (c_rule x)) s b then Some (OBlock (c_idx x) s) else None
+  | None => None
+  end.
+
+Lemma flow_check_unfold w x r t b :
+  flow_check w (x :: r) t b = match flow_check_step w x t b with Some o => o | None => flow_check w r t b end.
+Proof. unfold flow_check_step. cbn [flow_check]. destruct (ctrl_sum w x t) as [s|]; [|reflexivity].
+  destruct (rule_blocks (r_thr (c_rule x)) s b); reflexivity. Qed.
+
+(* the checker's result for a reject rule over the sum it reads: the regenerated DoCheck (0 = nil = pass,
+   non-zero = blocked, status 1); a rule without a readable statistic passes *)
+Lemma flow_Slot_Check_step_reject w x t b :
+  let code := match ctrl_sum w x t with
+              | Some s => flow_reject_DoCheck b s false (r_thr (c_rule x))
+              | None => 0
+              end in
+  fst (flow_Slot_Check_step 0 (code =? 0) 1 false)
+  = match flow_check_step w x t b with Some _ => LReturn 1 | None => LContinue tt end.
+Proof.
+  cbv zeta. unfold flow_check_step. destruct (ctrl_sum w x t) as [s|]; [|reflexivity].
+  rewrite <- (flow_reject_DoCheck_ok (r_thr (c_rule x)) s b).
+  unfold flow_Slot_Check_step.
+  destruct (flow_reject_DoCheck b s false (r_thr (c_rule x)) =? 0); reflexivity.
+Qed.
+
+(* is the controller fed by a passed request of `res`, according to the two regenerated loops and the
+   regenerated index membership?  (own = the resource whose controller list x belongs to) *)
+Definition is_view (x : ctrl) : bool := match c_stat x with RView _ _ => true | RAlone _ _ => false end.
+Definition fed_by_go (own res b : Z) (x : ctrl) : bool :=
+  ((own =? res) && acted (flow_standalone_own_step b (is_view x) true (if r_assoc (c_rule x) then 1 else 0) true))
+  || (acted (flow_refStat_member_step (negb (r_assoc (c_rule x))) (is_view x) true)
+      && (r_ref (c_rule x) =? res) && acted (flow_standalone_ref_step b)).
+
+Lemma standalone_feed_ok own res t b x :
+  feed_ctrl own res t b x
+  = if fed_by_go own res b x
+    then match c_stat x with
+         | RAlone a v => {| c_idx := c_idx x; c_rule := c_rule x; c_stat := RAlone (bla_add a t EvPass b) v |}
+         | RView _ _ => x
+         end
+    else x.
+Proof.
+  unfold feed_ctrl, fed_by_go, c_target, rule_target, is_view, acted,
+    flow_standalone_own_step, flow_refStat_member_step, flow_standalone_ref_step.
+  destruct (c_stat x) as [rr v|a v]; destruct (r_assoc (c_rule x)); cbn [negb andb orb snd Z.eqb];
+    repeat match goal with |- context [(?p =? ?q)%Z] => destruct (p =? q)%Z end; reflexivity.
+Qed.
+
+(* the batch recorded by both loops is the request's batch count *)
+Lemma standalone_feed_amount b :
+  snd (flow_standalone_own_step b false false 0 true) = [(1, [LZ b])]
+  /\ snd (flow_standalone_ref_step b) = [(1, [LZ b])].
+Proof. split; reflexivity. Qed.
+
+Print Assumptions flow_Slot_Check_step_reject.
+Print Assumptions standalone_feed_ok.
+Print Assumptions standalone_feed_amount.
